@@ -10,6 +10,7 @@ import (
 	"crypto/sha512"
 	"hash"
 	"math/big"
+	"strings"
 
 	"github.com/miekg/dns"
 	"github.com/semihalev/sdns/internal/dnsutil"
@@ -53,7 +54,29 @@ func signatureBinding(k *dns.DNSKEY, sig *dns.RRSIG, rrset []dns.RR) error {
 		!dnsutil.NameInZone(dns.CanonicalName(h0.Name), signer) {
 		return ErrMissingSigned
 	}
+	// A denial record is never the product of wildcard expansion. Its owner
+	// is one end of the interval it proves empty, so an NSEC (or NSEC3)
+	// presented under a name a wildcard was expanded to — which verifies,
+	// as every expansion of a signed wildcard RRset does — would prove an
+	// interval the signer never published: the zone's own "*.zone NSEC"
+	// re-owned to an arbitrary name denies whatever lies after that name.
+	if (h0.Rrtype == dns.TypeNSEC || h0.Rrtype == dns.TypeNSEC3) && expandedFromWildcard(h0.Name, sig.Labels) {
+		return ErrMissingSigned
+	}
 	return nil
+}
+
+// expandedFromWildcard reports whether an RRset owned by name and signed
+// with an RRSIG Labels field of labels was synthesised from a wildcard
+// (RFC 4035 §5.3.4): the signer counts the owner's labels without the root
+// and without a leading "*", so an owner with more labels than that was not
+// the name that was signed.
+func expandedFromWildcard(name string, labels uint8) bool {
+	n := dns.CountLabel(name)
+	if strings.HasPrefix(name, "*.") {
+		n--
+	}
+	return n > int(labels)
 }
 
 // verifySignature checks an RRSIG against a DNSKEY, returning nil when the
